@@ -71,26 +71,40 @@ func (LineInfoList).Last
 
 // appending `bytes` bytes generated from `lineNumber`: every earlier byte keeps its line,
 // the new bytes map to lineNumber, and the table stays well formed
+func NewLineInfo
+  props C32
+  assigns fresh
+  ensures ret != nil && fresh(ret) && ret.LineNumber == lineNum && ret.InstructionCount == instructCount
+
 func (*LineInfoList).AddLineNumber
   props C32
-  uses psumFrame
+  uses psumFrame, psumNonneg
   requires l != nil && wfLines(*l) && bytes >= 1 && psum(*l, len(*l)) + bytes <= 72057594037927936
-  ensures try wf: wfLines(*l)
-  ensures try total: psum(*l, len(*l)) == old(psum(*l, len(*l))) + bytes
+  typing forall j int :: 0 <= j && j < len(*l) ==> allocated(elem(*l, j))
+  hint f0: old(len(*l)) >= 1 ==> old(psum(*l, len(*l) - 1)) >= 0
+  hint f3: old(len(*l)) >= 1 ==> old(psum(*l, len(*l))) == old(psum(*l, len(*l) - 1)) + old(elem(*l, len(*l) - 1).InstructionCount)
+  hint f2: forall k int :: 0 <= k && k < old(len(*l)) ==> old(psum(*l, k)) == psum(*l, k)
+  hint f4: len(*l) == old(len(*l)) + 1 ==> old(psum(*l, len(*l))) == psum(*l, old(len(*l)))
+  hint w1: forall j int :: 0 <= j && j < len(*l) ==> elem(*l, j) != nil && elem(*l, j).InstructionCount >= 1
+  hint w2: forall j int, k int :: 0 <= j && j < k && k < len(*l) ==> elem(*l, j) != elem(*l, k)
+  ensures wf: wfLines(*l)
+  ensures total: psum(*l, len(*l)) == old(psum(*l, len(*l))) + bytes
   ensures lastline: len(*l) >= 1 && elem(*l, len(*l) - 1).LineNumber == lineNumber
   ensures grows: len(*l) == old(len(*l)) || len(*l) == old(len(*l)) + 1
-  ensures try entries: forall k int :: 0 <= k && k < old(len(*l)) ==> elem(*l, k) == old(elem(*l, k)) && elem(*l, k).LineNumber == old(elem(*l, k).LineNumber)
-  ensures try earlier: forall k int :: 0 <= k && k < old(len(*l)) ==> psum(*l, k) == old(psum(*l, k))
-  ensures try newblock: len(*l) == old(len(*l)) + 1 ==> psum(*l, old(len(*l))) == old(psum(*l, len(*l)))
+  ensures entries: forall k int :: 0 <= k && k < old(len(*l)) ==> elem(*l, k) == old(elem(*l, k)) && elem(*l, k).LineNumber == old(elem(*l, k).LineNumber)
+  ensures earlier: forall k int :: 0 <= k && k < old(len(*l)) ==> psum(*l, k) == old(psum(*l, k))
+  ensures newblock: len(*l) == old(len(*l)) + 1 ==> psum(*l, old(len(*l))) == old(psum(*l, len(*l)))
 
 func (*LineInfoList).AddBytesToLastLine
   props C32
-  uses psumFrame
+  uses psumFrame, psumNonneg
   requires l != nil && wfLines(*l) && len(*l) >= 1 && bytes >= 0 && psum(*l, len(*l)) + bytes <= 72057594037927936
+  hint f0: old(psum(*l, len(*l) - 1)) >= 0
+  hint f3: old(psum(*l, len(*l))) == old(psum(*l, len(*l) - 1)) + old(elem(*l, len(*l) - 1).InstructionCount)
   hint f1: old(psum(*l, len(*l) - 1)) == psum(*l, len(*l) - 1)
   hint f2: forall k int :: 0 <= k && k < len(*l) ==> old(psum(*l, k)) == psum(*l, k)
-  ensures try wf: wfLines(*l) && *l == old(*l)
-  ensures try total: psum(*l, len(*l)) == old(psum(*l, len(*l))) + bytes
+  ensures wf: wfLines(*l) && *l == old(*l)
+  ensures total: psum(*l, len(*l)) == old(psum(*l, len(*l))) + bytes
   ensures entries: forall k int :: 0 <= k && k < len(*l) ==> elem(*l, k).LineNumber == old(elem(*l, k).LineNumber)
   ensures earlier: forall k int :: 0 <= k && k < len(*l) ==> psum(*l, k) == old(psum(*l, k))
 
